@@ -25,10 +25,11 @@ class Function(Token):
             adjacent=True, brace=False):
         if adjacent and tokens:  # Not directly after an operand or a ')'.
             from .operand import Operand
+            from .operator import Operator
             t = tokens[-1]
             if isinstance(t, Operand) or (
                     isinstance(t, Parenthesis) and t.has_end
-            ):
+            ) or (isinstance(t, Operator) and t.name == '%'):
                 raise TokenError()
         super(Function, self).ast(tokens, stack, builder)
         stack.append(self)
